@@ -126,6 +126,7 @@ func genClone(tier string, seed uint64) {
 }
 
 func genPump(tier string, seed uint64) {
+	emitDefs()
 	r := &rng{s: seed}
 	n := 6000
 	ncli := 300
